@@ -5,33 +5,55 @@ From CV Require Import Base.Tac Base.Cmp Model.C09_Gibbs Proofs.C09_Wiring Proof
 From Coq Require Import QArith.
 Local Open Scope Q_scope.
 
-(* what an MH block sampler caches is the value of the target it holds at its current point *)
+(* what a block sampler caches about its target are evaluations of the target it holds, at its current point:
+   MH: the log-density; real samplers with cached fields (KOpq) and the NUTS branch: log-density and gradient *)
 Definition cache_ok (t : vec -> Q) (s : sst) : Prop :=
-  match s_kind s with KMH => s_cache s == t (s_pt s) | _ => True end.
+  match s_kind s with
+  | KMH => s_cache s == t (s_pt s)
+  | KOpq | KNuts => s_cache s == t (s_pt s) /\ ql_eqb (s_grad s) (gradq t (s_scale s) (s_pt s)) = true
+  | _ => True
+  end.
+
+Lemma ql_eqb_refl (v : vec) : ql_eqb v v = true.
+Proof. induction v as [|x r IH]; [reflexivity|]. cbn. rewrite IH, andb_true_r. apply Qeq_bool_iff. reflexivity. Qed.
 
 Lemma cache_ok_ev_iff (e : @ev vec Q sst) : cache_ok_ev e = true <-> cache_ok (e_tgt e) (e_s e).
-Proof. unfold cache_ok_ev, cache_ok. destruct (s_kind (e_s e)); try tauto. apply Qeq_bool_iff. Qed.
+Proof.
+  unfold cache_ok_ev, cache_ok. destruct (s_kind (e_s e)); try tauto; try apply Qeq_bool_iff.
+  all: rewrite andb_true_iff, Qeq_bool_iff; tauto.
+Qed.
 
 Lemma ctrans_kind i t s r : s_kind (ctrans i t s r) = s_kind s.
 Proof. unfold ctrans. destruct (s_kind s) eqn:E; cbn; auto. destruct (Qle_bool _ _); cbn; auto. Qed.
 
 Lemma creinit_kind f i t s : s_kind (creinit f i t s) = s_kind s.
-Proof. unfold creinit. destruct (s_kind s) eqn:E; cbn; auto. destruct f; cbn; auto. Qed.
+Proof. unfold creinit. destruct (s_kind s) eqn:E; cbn; auto; destruct f; cbn; auto. Qed.
 
 Lemma ctrans_cache_ok i t s r : cache_ok t s -> cache_ok t (ctrans i t s r).
 Proof.
   unfold cache_ok. intros H. rewrite ctrans_kind. destruct (s_kind s) eqn:E; auto.
-  unfold ctrans. rewrite E. destruct (Qle_bool _ _); cbn; [reflexivity | exact H].
+  - unfold ctrans. rewrite E. destruct (Qle_bool _ _); cbn; [reflexivity | exact H].
+  - unfold ctrans. rewrite E. cbn. split; [reflexivity | apply ql_eqb_refl].
+  - unfold ctrans. rewrite E. cbn. split; [reflexivity | apply ql_eqb_refl].
 Qed.
 
 Lemma creinit_fresh_cache_ok i t s : cache_ok t (creinit true i t s).
 Proof.
-  unfold cache_ok. rewrite creinit_kind. destruct (s_kind s) eqn:E; auto.
-  unfold creinit. rewrite E. cbn. reflexivity.
+  unfold cache_ok. rewrite creinit_kind. destruct (s_kind s) eqn:E; auto; unfold creinit; rewrite E; cbn.
+  - reflexivity.
+  - split; [reflexivity | apply ql_eqb_refl].
+  - split; [reflexivity | apply ql_eqb_refl].
 Qed.
 
-Lemma nokmh_cache_ok t s : s_kind s <> KMH -> cache_ok t s.
-Proof. unfold cache_ok. destruct (s_kind s); auto. congruence. Qed.
+(* the classes of block samplers whose cached values cannot go stale under the state-restoring HybridGibbs.step:
+   those that cache nothing, and the NUTS branch (re-initialised at the current point, nothing restored) *)
+Definition no_restored_cache (s : sst) : Prop := s_kind s <> KMH /\ s_kind s <> KOpq.
+
+Lemma creinit_restoring_cache_ok i t s : no_restored_cache s -> cache_ok t (creinit false i t s).
+Proof.
+  intros [H1 H2]. unfold cache_ok. rewrite creinit_kind. destruct (s_kind s) eqn:E; auto; try congruence.
+  unfold creinit. rewrite E. cbn. split; [reflexivity | apply ql_eqb_refl].
+Qed.
 
 Section Thm.
 Variable condf : list vec -> nat -> vec -> Q.
@@ -57,17 +79,17 @@ Qed.
 
 (* HybridGibbs as it is (state restored after reinitialize): block samplers that cache no target evaluation *)
 Theorem cache_consistent_restoring ops t0 (x : @run vec Q sst) :
-  wf (r_st x) -> Forall (fun s => s_kind s <> KMH) (g_ss (r_st x)) ->
+  wf (r_st x) -> Forall no_restored_cache (g_ss (r_st x)) ->
   Forall (fun e => cache_ok (e_tgt e) (e_s e)) (r_log x) ->
   Forall (fun e => cache_ok (e_tgt e) (e_s e)) (r_log (run_ops condf s_pt (creinit false) ctrans ctune nst rnd ops t0 x)).
 Proof.
   intros Hwf Hk Hlog.
-  apply (run_cache_consistent condf s_pt (creinit false) ctrans ctune nst (fun s => s_kind s <> KMH) cache_ok).
-  - intros i t s H. now rewrite creinit_kind.
-  - intros i t s r H. now rewrite ctrans_kind.
+  apply (run_cache_consistent condf s_pt (creinit false) ctrans ctune nst no_restored_cache cache_ok).
+  - intros i t s H. unfold no_restored_cache. now rewrite creinit_kind.
+  - intros i t s r H. unfold no_restored_cache. now rewrite ctrans_kind.
   - intros i a b s H. exact H.
-  - intros i t s H. apply nokmh_cache_ok. now rewrite creinit_kind.
-  - intros i t s r H _. apply nokmh_cache_ok. now rewrite ctrans_kind.
+  - intros i t s H. now apply creinit_restoring_cache_ok.
+  - intros i t s r H Hc. now apply ctrans_cache_ok.
   - exact Hwf.
   - exact Hk.
   - exact Hlog.
